@@ -174,6 +174,13 @@ struct SwapSim {
             if (m.kind == K_ENCKEY) alice_on_enckey(m); else if (m.kind == K_ADAPTOR) bob_on_adaptor(m); else if (m.kind == K_PUBLISH) observer_on(m); else if (m.kind == K_RELAY) alice_on_publish(m);
         };
         net.world_fault = [&](int f, Msg &m, int64_t, int64_t) -> bool {
+            if (f == F_MALLEATE && m.kind == K_ADAPTOR && m.bytes.size() == 162) {
+                // negate the encrypted scalar s' (bytes 66..97 of R || R' || s' || e || s)
+                ref::U256 sp = ref::U256::from_be(&m.bytes[66]);
+                if (sp.is_zero() || !(sp < ref::FN.m)) return false;
+                ref::FN.neg(sp).to_be(&m.bytes[66]);
+                return true;
+            }
             if (f != F_MALLEATE || m.kind != K_RELAY || m.bytes.size() != 64) return false;
             ref::U256 sv = ref::U256::from_be(&m.bytes[32]);
             if (sv.is_zero() || !(sv < ref::FN.m)) return false;
@@ -217,8 +224,15 @@ static Plan swap_generate(uint64_t seed, int) {
             Op o; o.k = "nf"; int kind = (int)g.below(K_NK); static const int fr[] = {1, 0, 1, 2}, to[] = {0, 1, 2, 0};
             uint64_t w = g.below(100); int f;
             if (w < 6) f = NF_DROP; else if (w < 14) f = NF_DUP; else if (w < 40) f = NF_FLIP; else if (w < 50) f = NF_SET; else if (w < 58) f = NF_ZERO; else if (w < 64) f = NF_FF;
-            else if (w < 69) f = NF_TRUNC; else if (w < 73) f = NF_EXT; else if (w < 80) f = NF_SPLICE; else if (w < 90) f = NF_MISDELIVER; else { f = F_MALLEATE; kind = K_RELAY; }
-            o.a = {kind, (int64_t)g.below(k), 0, fr[kind], to[kind], f, (int64_t)g.below(1 << 16), (int64_t)g.below(256)};
+            else if (w < 69) f = NF_TRUNC; else if (w < 73) f = NF_EXT; else if (w < 80) f = NF_SPLICE; else if (w < 90) f = NF_MISDELIVER; else { f = F_MALLEATE; kind = g.chance(1, 2) ? K_RELAY : K_ADAPTOR; }
+            int64_t a1 = (int64_t)g.below(1 << 16);
+            if ((f == NF_FLIP || f == NF_SET) && kind == K_ADAPTOR && g.chance(1, 3)) {
+                // bias towards field boundaries of the 162-byte format: prefix bytes and leading scalar bytes
+                static const int fld[] = {0, 33, 66, 98, 130, 32, 65, 97, 129, 161};
+                int off = fld[g.below(10)];
+                a1 = f == NF_FLIP ? off * 8 + (int64_t)g.below(8) : off;
+            }
+            o.a = {kind, (int64_t)g.below(k), 0, fr[kind], to[kind], f, a1, (int64_t)g.below(256)};
             p.ops.push_back(o);
         }
     }
